@@ -156,11 +156,12 @@ def _dec_sample(t, variant=""):
         if t == "rat":
             return [], F.rat_file(pal, bytes((i // 7) & 0x77 for i in range(199 * 160)), core.Chooser(()))
         if t == "cm3":
-            return [], F.cm3_raw_file(pal, bytes((i // 5) & 0x7F for i in range(192 * 160)))
+            body = bytes(160) + bytes(((i // 160) * 3 + 1) & 0x7F for i in range(191 * 160))
+            return [], F.cm3_coded_file(pal, body, core.Chooser(()), False, False)
     if t == "rat":
         return [], F.rat_file(pal, bytes((i // 3) & 0x77 for i in range(199 * 160)), core.Chooser(()))
     if t == "cm3":
-        return [], F.cm3_raw_file(pal, bytes((i // 9) & 0x7F for i in range(192 * 160)))
+        return [], F.cm3_coded_file(pal, bytes(((i // 160) * 5 + 0x5A) & 0x7F for i in range(192 * 160)), core.Chooser(()), False, True)
     if t == "hrs":
         return ["-w", "8", "-r", "4"], F.hrs_file(pal, C.body_lin(16, 3, 1))
     if t == "max":
